@@ -7,7 +7,7 @@
 (* currently stands between each pair of adjacent tokens (initially the    *)
 (* filler of the original text: white-space and comments).  One action     *)
 (* replaces the filler at one boundary by a member of Fillers -- nothing,  *)
-(* blanks, tab, new-line, the three comment forms of X.680 12.6 -- at any  *)
+(* blanks, tab, (CR) new-line, the comment forms of X.680 12.6 -- at any   *)
 (* boundary where X.680 allows it, including the boundaries between the    *)
 (* words of multi-word keywords.  The boundaries are visited left to right *)
 (* (gB), so that a behaviour is a schedule of changes without repetitions. *)
@@ -30,7 +30,7 @@ CONSTANTS MaxChanges,   \* longest schedule
           OnlyWordPairs \* TRUE: only boundaries between the words of multi-word keywords are changed
 
 \* [wid, toks, fill0, bfs, inj]: token strings, original fillers (Len(toks) - 1 of them),
-\* exhaustive exploration wanted, error injection possible (the window is a whole small text)
+\* exhaustive exploration wanted, error injection possible (first window of a small text that parses)
 Wins == ndJsonDeserialize(IOEnv.TOKENS_FILE)
 
 Fillers == <<"", " ", "  ", "\t", "\n", "--c\n", "--c--", "/*c*/", "/*a/*b*/c*/", "/*c\nd*/", "\r\n">>
